@@ -308,6 +308,9 @@ def d3(chk, prog):
     for fi, n, kind, name in sites:
         ok, why = rules.seeded(prog, eff, fi, n)
         chk.decide(ok, "seed-before-draw", f"{fi.name}: {norm(n)[:50]}", f"{fi.qn}::{norm(n)[:70]}", fi.loc(n), why, detail=why)
+    for sfi, sn, desc in rules.shared_generators(prog):
+        if sfi.mod in (SM, "cnvlib.bintest"):
+            chk.violate("seed-before-draw", f"{sfi.qn}::{norm(sn)[:70]}", sfi.loc(sn), f"`{norm(sn)[:60]}` draws from a generator that outlives the call ({desc}): repeated runs in one process differ")
     gens = [n for fi in prog.functions.values() if fi.mod == SM for n in own_nodes(fi.node) if isinstance(n, ast.Call) and norm(n.func) in ("np.random.default_rng", "np.random.RandomState", "np.random.Generator")]
     for g in gens:
         chk.note(f"explicit generator constructed: {norm(g)[:60]}")
